@@ -108,7 +108,13 @@ func c08State(s *store.Store, fanout int, root cid.Cid, rootSize uint64, set map
 			}
 		}
 		bs := store.New()
-		broot, bsz, err := gen.OursSharded(bs, fanout, in)
+		var broot cid.Cid
+		var bsz uint64
+		var err error
+		if p, pv := core.Guard(func() { broot, bsz, err = gen.OursSharded(bs, fanout, in) }); p {
+			viol("builder-panic", fmt.Sprintf("%s: %v", desc, pv))
+			return
+		}
 		if err != nil {
 			viol("builder-error", fmt.Sprintf("%s: %v", desc, err))
 			return
